@@ -31,13 +31,13 @@ ANCHORS = ["integrate", "integrateFuncJac", "_integrateOneStep", "_setupIntegrat
            "DeterministicOde.integrate", "DeterministicOde.integrate2", "SimulateOde.solve_determ"]
 CASE_TIMEOUT = 300
 METHODS = [None, "lsoda", "vode", "ivode", "dopri5", "dop853"]
-CAT = list(GB.CATALOGUE)
+CAT = list(GB.CATALOGUE) + ["Robertson"]      # Robertson: stiff, parameter-free
 
 
 def plan(tier):
     q = tier == "quick"
     return [{"lane": "main", "n": 64 if q else 4000, "timeout": 900 if q else 3300, "min_per_shard": 2},
-            {"lane": "catalogue", "n": 24 if q else 600, "timeout": 900 if q else 3300, "min_per_shard": 1}]
+            {"lane": "catalogue", "n": 26 if q else 650, "timeout": 900 if q else 3300, "min_per_shard": 1}]
 
 
 def floors(tier):
@@ -100,7 +100,10 @@ def run_case(rng, idx, tier, lane, ctx):
             m = getattr(common_models, name)()
         m._SC = ode_utils.compileCode(backend="lambda")
         spec = spec_from_model(m)
-        theta, x0, horizon = GB.catalogue_case(rng, name)
+        if name == "Robertson":
+            theta, x0, horizon = [], [1.0, 0.0, 0.0], rng.choice([4.0, 40.0])
+        else:
+            theta, x0, horizon = GB.catalogue_case(rng, name)
         cls = ["catalogue", "cat-" + name]
     else:
         spec = GB.gen_bounded(rng)
@@ -112,15 +115,24 @@ def run_case(rng, idx, tier, lane, ctx):
     fnum, jnum = ref.num("ode"), ref.num("jacobian")
     f = lambda t, x: fnum(x, t, theta).reshape(-1)
     jac = lambda t, x: jnum(x, t, theta)
-    m.parameters = list(theta)
+    if theta:
+        m.parameters = list(theta)
     t0 = 0.0
     m.initial_values = (list(x0), t0)
-    try:
-        ev = np.linalg.eigvals(jac(t0, np.array(x0, dtype=float)))
-        re = np.abs(ev.real)
-        stiff = bool(re.max() > 1e3 * max(re[re > 1e-12].min() if np.any(re > 1e-12) else re.max(), 1e-12)) if re.size else False
-    except Exception:
-        stiff = False
+    def stiff_at(points):
+        """eigenvalue ratio > 1e3 anywhere along the reference trajectory (Robertson is not stiff at its initial point)"""
+        for k, xx in enumerate(points):
+            try:
+                re = np.abs(np.linalg.eigvals(jac(t0, np.asarray(xx, dtype=float))).real)
+            except Exception:
+                continue
+            nz = re[re > 1e-9 * max(re.max(), 1e-300)] if re.size else re
+            if nz.size and re.max() > 1e3 * nz.min():
+                return True
+            if re.size and re.max() > 500:
+                return True
+        return False
+    stiff = False
     nontriv = False
     sample = {"spec": spec if lane != "catalogue" else {"catalogue": cls[1]}, "theta": theta, "x0": x0, "horizon": horizon, "grids": {}}
     probe = OneStepProbe()
@@ -128,12 +140,15 @@ def run_case(rng, idx, tier, lane, ctx):
         for gname, grid in make_grids(rng, horizon).items():
             if len(grid) < 2:
                 continue
-            rs = RI.reference(f, x0, t0, grid, jac=jac)
+            rs = RI.reference(f, x0, t0, grid, jac=jac, stiff_hint=(lane == "catalogue" and cls[1] == "cat-Robertson"))
             if not rs.ok:
                 counters["ref_inconclusive"] += 1
                 counters["ref_" + rs.reason] = counters.get("ref_" + rs.reason, 0) + 1
                 continue
+            stiff = stiff_at([x0] + [r for r in rs.x])
             cls.append(gname)
+            if stiff:
+                cls.append("stiff")
             sample["grids"][gname] = grid.tolist()
             full = np.vstack([np.asarray(x0, dtype=float)[None, :], rs.x])
             if RI.moves(x0, rs.x, rs.tol(1e-10)):
